@@ -275,12 +275,21 @@ def lowestAllowedCty (cres : List (Cty × Dist)) (prev : CSeats) : Dist :=
 def nonpropDropCty (lowest : Dist) (prev : CSeats) : Nat :=
   prev.foldl (fun acc d => d.2.foldl (fun a p => if distHas lowest (.cand p.1) then a else a + p.2) acc) 0
 
+def isTieKey : Key → Bool
+  | .tie _ => true
+  | .cand _ => false
+
+/-- `Tie.any(cty_prop_seats)` for some constituency -/
+def hasTieCty (cres : List (Cty × Dist)) : Bool := cres.any (fun d => d.2.any (fun p => isTieKey p.1))
+
 /-- `LevelOverhangByConstituency.calculate(votes, n_seats, prev_gains)` with `max_seats = {}`, for an arbitrary way
     `ovAt h` of obtaining the overall distribution of `h` seats.  Unlike `LevelOverhang`, the first overall evaluation
     is already made at `n_seats - nonprop_drop`. -/
 def levelOverhangCtyAt (cev : CtyEval) (ovAt : Nat → Except Err Dist) (fuel : Nat) (cv : CVotes) (n : Nat)
     (prev : CSeats) : Except Err Nat := do
   let cres ← cev cv n
+  -- a tie inside a constituency result is refused: a tied seat has no owner, hence no minimum to level against
+  if hasTieCty cres then .error .votingSystemError else do
   let lowest := lowestAllowedCty cres prev
   let drop := nonpropDropCty lowest prev
   if n < drop then .error unmodelled else do
